@@ -42,6 +42,9 @@ THEOREMS = [
     # whole expression trees
     "evalK_len", "eval_tree_pointwise", "like_abs", "substring_abs", "replace_abs", "repeat_abs",
     "concat_abs", "neg_abs",
+    # LIKE
+    "like_dotfree_partial", "like_pointwise_partial", "like_pointwise_unsound", "like_newline_witness",
+    "like_invalid_regex_panics",
 ]
 
 # The witnesses of the `…_unsound` theorems, as requests (replayed on the implementation).
